@@ -163,6 +163,7 @@ type c12File struct {
 type c12Tree struct {
 	files []*c12File
 	dir   string
+	objs  []c12Obj // objects defined by the resource files of the layers (not of components)
 }
 
 func (t *c12Tree) toCase() c12Case {
@@ -960,6 +961,7 @@ func (gen *c12Gen) tree(g *Rng) *c12Tree {
 		t.files = append(t.files, &c12File{path: dir + "/kustomization.yaml", docs: []*yaml.Node{k}, role: "kustomization"})
 		t.files = append(t.files, extra...)
 	}
+	t.objs = allObjs
 	return t
 }
 
@@ -1289,6 +1291,20 @@ func (gen *c12Gen) mutateTree(g *Rng, t *c12Tree) (c12Case, bool) {
 			return c, true
 		}
 		return c, false
+	}
+	if g.Chance(25) {
+		// directed boundary mutation (c12_directed.go), now and then followed by a blind one
+		if d := gen.directedOnce(g, t); d != "" {
+			muts := []string{d}
+			if g.Chance(15) {
+				if d2 := gen.mutateOnce(g, t); d2 != "" {
+					muts = append(muts, d2)
+				}
+			}
+			c := t.toCase()
+			c.Muts = muts
+			return c, true
+		}
 	}
 	n := 1
 	if g.Chance(25) {
